@@ -1162,8 +1162,15 @@ impl<T: Transport, Env: UtpEnvironment> VirtualSocket<T, Env> {
 
             (Established, ST_FIN) => {
                 trace!("state: established -> last-ack");
-                let our_fin = self.seq_nr;
-                self.seq_nr += 1;
+                // Segments that are queued but not sent yet will still go out: our FIN takes the
+                // number after them, not the number of the next one.
+                let queued_next = self.user_tx_segments.next_seq_nr();
+                let our_fin = if queued_next > self.seq_nr {
+                    queued_next
+                } else {
+                    self.seq_nr
+                };
+                self.seq_nr = our_fin + 1;
                 self.state = LastAck {
                     our_fin,
                     remote_fin: hdr.seq_nr,
